@@ -151,7 +151,7 @@ def run_case(case, ctx):
                 Su = numpy.array(Manager().basis_transformations[-1])
                 Tu = numpy.array(R.data, copy=True)
         identities(ctx, Tu, det, ".data eigenbasis_of(complex self-adjoint operator)")
-        want = numpy.einsum("ia,jb,...ijkl,kc,ld->...abcd", Su.conj(), Su, ref, Su, Su.conj())
+        want = numpy.einsum("ia,jb,...ijkl,kc,ld->...abcd", Su.conj(), Su, ref, Su, Su.conj(), optimize=True)
         ctx.check("apply==data", float(numpy.max(numpy.abs(Tu - want))), 1e-12 * max(float(numpy.max(numpy.abs(ref))), 1e-300) * dim * dim,
                   dict(det, observed=".data in a unitary basis vs the site-basis tensor transformed by the context's matrix"))
     # read outside again: the contexts must have restored the representation (cheap cross-check, C04's business otherwise)
@@ -220,7 +220,7 @@ def run_case(case, ctx):
                     R.secularize(legacy=legacy)
                 after = numpy.array(R.data, copy=True)
         if not read_first:
-            before = numpy.einsum("ia,jb,...ijkl,kc,ld->...abcd", S, S, T_out, S, S)
+            before = numpy.einsum("ia,jb,...ijkl,kc,ld->...abcd", S, S, T_out, S, S, optimize=True)
         sc = max(float(numpy.max(numpy.abs(before))), 1e-300)
         tol0 = 0.0 if read_first else 1e-12 * sc * dim * dim
         ctx.check("secular-elements-kept", float(numpy.max(numpy.abs(after - before)[..., pat])), tol0, dict(det, legacy=legacy, read_before_secularize=read_first))
